@@ -247,6 +247,8 @@ fn spaces(tier: Tier) -> Vec<Space> {
             Space { alpha: "MICRO", depth: 3 },
             Space { alpha: "SHARE", depth: 2 },
             Space { alpha: "SHARE", depth: 3 },
+            Space { alpha: "SAME", depth: 2 },
+            Space { alpha: "SAME", depth: 3 },
             Space { alpha: "A1", depth: 2 },
             Space { alpha: "CORE", depth: 3 },
             Space { alpha: "T3", depth: 2 },
@@ -265,6 +267,8 @@ fn spaces(tier: Tier) -> Vec<Space> {
             Space { alpha: "MICRO", depth: 3 },
             Space { alpha: "SHARE", depth: 2 },
             Space { alpha: "SHARE", depth: 3 },
+            Space { alpha: "SAME", depth: 2 },
+            Space { alpha: "SAME", depth: 3 },
             Space { alpha: "T3", depth: 2 },
             Space { alpha: "BIND", depth: 2 },
             Space { alpha: "CORE", depth: 3 },
@@ -273,6 +277,7 @@ fn spaces(tier: Tier) -> Vec<Space> {
             Space { alpha: "SELF", depth: 3 },
             Space { alpha: "A2", depth: 2 },
             Space { alpha: "SHARE", depth: 4 },
+            Space { alpha: "SAME", depth: 4 },
             Space { alpha: "MICRO", depth: 5 },
             Space { alpha: "CORE", depth: 4 },
         ],
